@@ -243,6 +243,9 @@ class World:
         for u in uris:
             t = Template(text, uri=u + uniq, **kw)
             self.templates.append(t)
+            # the internal name of the anonymous block is whatever the code generator calls it (observed, not demanded)
+            m_ = re.search(r"def (__M_anon_\w+)\(", t.code)
+            info = dict(info, anon=m_.group(1) if m_ else info["anon"])
             self.models.append(Model(prog, info, t.uri))
         self.counts = {}
         self.uncached = None
